@@ -43,7 +43,10 @@ def _region(documented, flags) -> bool:
 
 
 def _argsok(cps) -> bool:
-    return hc.cps_ok(cps, bad=hc.PLAINBAD) if NA > 0 else True
+    if NA == 0:
+        return True
+    # C03 (FREE): parameters may be quoted strings, variable references, bracket arguments: any characters but line breaks
+    return hc.cps_ok(cps, bad=(10, 13) if FREE else hc.PLAINBAD)
 
 
 def _identifier(n) -> bool:
